@@ -318,6 +318,21 @@ theorem emitsAt_paramAccess (env : Env) (s : State) :
       simp only [hg, Bool.false_eq_true, if_false, Option.isSome_some, Bool.not_false, Bool.and_self, if_true]
       exact emitsAt_subOp (by intro o ho hn; simp [errOf, nodeErr]) s
 
+theorem emitsAt_gateAccess (env : Env) (v : Nat) (s : State) :
+    EmitsAt (gateAccess env v) (expectedSubs (.gate v) s.dev) s := by
+  unfold gateAccess
+  simp only [expectedSubs]
+  cases hc : s.dev.ctxt with
+  | none =>
+    have : paramsCtxt s = (.err .ctxtMissing, s) := by simp [paramsCtxt, hc]
+    rw [EmitsAt, bind_of_err this]
+    exact ⟨[], by simp, by simp, by simp [CallShape, Logical], by simp, fun a ha => by simp at ha⟩
+  | some x =>
+    have : paramsCtxt s = (.ok x, s) := by simp [paramsCtxt, hc]
+    rw [EmitsAt, bind_of_ok this, ← EmitsAt]
+    simp only [Option.isSome_some, if_true]
+    exact emitsAt_subOp (by intro o ho hn; simp [errOf, nodeErr]) s
+
 /-- Master lemma: the effects of every call, in every state, under every fault plan. -/
 theorem emitsAt_call (env : Env) (op : Op) (s : State) :
     EmitsAt (call env op) (expectedSubs op s.dev) s := by
@@ -328,6 +343,7 @@ theorem emitsAt_call (env : Env) (op : Op) (s : State) :
   | stop => exact emitsAt_stopStreaming env s
   | close => exact emitsAt_closeCam env s
   | param => exact emitsAt_paramAccess env s
+  | gate v => exact emitsAt_gateAccess env v s
 
 /-! ### Hoare triples over the camera monad -/
 
@@ -641,6 +657,10 @@ theorem loopInv_call (env : Env) (op : Op) :
     refine triple_ite (fun _ => triple_pure (fun _ h => h.1)) (fun _ => ?_)
     exact triple_conseq (loopInv_frame_subOp (by simp) (by simp) (by simp) (by simp))
       (fun _ h => h.1) (fun _ _ h => h) (fun _ h => h)
+  | gate v =>
+    exact triple_bind (R := fun _ => LoopInv env.stopFailKills)
+      (triple_paramsCtxt (fun _ _ h _ => h) (fun _ h _ => h))
+      (fun _ => loopInv_frame_subOp (by simp) (by simp) (by simp) (by simp))
 
 theorem loopInv_init (kills : Bool) : LoopInv kills State.init := by
   simp [LoopInv, FlagTracksLoop, State.init, liveLoops]
@@ -878,6 +898,12 @@ theorem good_paramAccess (env : Env) :
   exact triple_conseq (good_frame_subOp (fun _ h => h) (fun _ h => h)) (fun _ h => h.1)
     (fun _ _ h => h) (fun _ h => h)
 
+theorem good_gateAccess (env : Env) (v : Nat) :
+    Triple (OkP H t0 Good) (gateAccess env v) (fun _ => OkP H t0 Good) (OkP H t0 Good) :=
+  triple_bind (R := fun _ => OkP H t0 Good)
+    (triple_paramsCtxt (fun _ _ h _ => h) (fun _ h _ => h))
+    (fun _ => good_frame_subOp (fun _ h => h) (fun _ h => h))
+
 /-- every call preserves `Good` as long as no protocol step fails (complete description on the
 device) -/
 theorem good_call (env : Env) (hx : env.xml = Xml.full)
@@ -894,6 +920,7 @@ theorem good_call (env : Env) (hx : env.xml = Xml.full)
     exact triple_conseq (good_closeCam env hprot (Or.inr (fun _ h => h))) (fun _ h => h)
       (fun _ => okp_weaken (fun _ h => h.1)) (fun _ h => h)
   | param => exact good_paramAccess env
+  | gate v => exact good_gateAccess env v
 
 theorem good_init : OkP H [] Good State.init :=
   ⟨[], rfl, fun _ => by simp [Good, Consistent, FlagTracksLoop, CtxtOk, State.init]⟩
@@ -1121,6 +1148,9 @@ theorem vis_call (env : Env) (op : Op) : Triple (VisInv v0 t0) (call env op) (fu
     refine triple_ite (fun _ => triple_pure (fun _ h => h.1)) (fun _ => ?_)
     exact triple_conseq (vis_subOp (by intro d; simp [Dev.visible, applyEffect]) (by intro d; simp [Dev.visible]))
       (fun _ h => h.1) (fun _ _ h => h) (fun _ h => h)
+  | gate v =>
+    exact triple_bind (R := fun _ => (VisInv v0 t0)) vis_paramsCtxt
+      (fun _ => vis_subOp (by intro d; simp [Dev.visible, applyEffect]) (by intro d; simp [Dev.visible]))
 
 theorem vis_runOps (env : Env) (ops : List Op) (s : State) (h : (VisInv v0 t0) s) :
     (VisInv v0 t0) (runOps env ops s) := by
@@ -1244,6 +1274,8 @@ theorem ord_call (env : Env) (op : Op) :
     intro d
     refine triple_ite (fun _ => triple_pure (fun _ h => h.1)) (fun _ => ?_)
     exact triple_conseq (ord_free_subOp rfl) (fun _ h => h.1) (fun _ _ h => h) (fun _ h => h)
+  | gate v =>
+    exact triple_bind (R := fun _ => OrdP []) ord_paramsCtxt (fun _ => ord_free_subOp rfl)
 
 theorem ord_runOps (env : Env) (ops : List Op) (s : State) (h : OrdP [] s) :
     OrdP [] (runOps env ops s) := by
